@@ -376,3 +376,33 @@ func zzC16SetSchema() {
 	}
 	vReach("end")
 }
+
+// zzC16TypedNumber: "it receives exactly those values" for numbers — a typed handler with an int64 argument, any int64
+// the client may send (the argument document is JSON text: every int64 is written exactly).
+type zzTypedNum struct {
+	ID int64 `json:"id"`
+}
+
+func zzC16TypedNumber() {
+	env := &zzSchemaEnv{in: &jsonschema.Resolved{}, out: &jsonschema.Resolved{}}
+	zzS = env
+	env.inValid = true
+	env.outValid = true
+	env.outRootType = "object"
+	var got zzTypedNum
+	calls := 0
+	h := func(ctx context.Context, req *CallToolRequest, in zzTypedNum) (*CallToolResult, map[string]any, error) {
+		calls++
+		got = in
+		return nil, map[string]any{"ok": true}, nil
+	}
+	tool := &Tool{Name: "t", InputSchema: &jsonschema.Schema{Type: "object"}, OutputSchema: &jsonschema.Schema{Type: "object"}}
+	_, th, err := toolForErr(tool, h, nil)
+	vAssert(err == nil && th != nil, "C16.wrapper-built")
+	id := vInt("id")
+	req := &CallToolRequest{Params: &CallToolParamsRaw{Name: "t", Arguments: vJSON(map[string]any{"id": int64(id)})}}
+	_, herr := th(context.Background(), req)
+	vAssert(herr == nil && calls == 1, "C16.handler-runs-once-on-valid-input")
+	vAssert(got.ID == int64(id), "C16.typed-input-carries-the-number-the-client-sent")
+	vReach("end")
+}
